@@ -136,6 +136,11 @@ def run_case(case):
 
     def judge(t, pred, raised, name, why, before):
         mm = models[t]
+        if isinstance(raised, Warning):
+            # warnings-as-errors shard: judged for atomicity only
+            mon.count("library_warnings_raised_as_errors")
+            mon.eq("atomic", snapshot(t), before, f"{why}: raised {type(raised).__name__} but changed {mm.label}")
+            return False
         if pred.kind == REFUSE and pred.reason not in ("name-conflict", "name-conflict-absorbed", "bad-name"):
             mon.count("generator_artefact_" + pred.reason)
             return raised is None
